@@ -270,7 +270,51 @@ func (d *Decoder) SetLimit(n uint32) {
 // implementation has to accept (more than 9 continuation octets or a value
 // over 2^62): RFC 7541 5.1 lets a decoder reject those, so callers treat that
 // outcome as "either".
+func readIntLong(b []byte, prefix uint8) (uint64, []byte, error) {
+	if len(b) == 0 {
+		return 0, b, ErrTruncated
+	}
+	max := uint64(1)<<prefix - 1
+	v := uint64(b[0]) & max
+	b = b[1:]
+	if v < max {
+		return v, b, nil
+	}
+	var shift uint
+	for {
+		if len(b) == 0 {
+			return 0, b, ErrTruncated
+		}
+		c := b[0]
+		b = b[1:]
+		g := uint64(c & 127)
+		if g != 0 {
+			if shift >= 62 || g<<shift>>shift != g {
+				return 0, b, ErrInteger
+			}
+			v += g << shift
+			if v >= 1<<62 {
+				return 0, b, ErrInteger
+			}
+		}
+		if shift < 1000 {
+			shift += 7
+		}
+		if c&128 == 0 {
+			return v, b, nil
+		}
+	}
+}
+
+// LongInts, when set, makes ReadInt accept encodings of any octet length as long as the value they spell is below
+// 2^62 (over-long, zero-padded encodings: RFC 7541 5.1 lets an implementation refuse them, it does not make them
+// mean something else). Used by C03 to tell "refused for its length" from "would have to be refused for its value".
+var LongInts bool
+
 func ReadInt(b []byte, prefix uint8) (uint64, []byte, error) {
+	if LongInts {
+		return readIntLong(b, prefix)
+	}
 	if len(b) == 0 {
 		return 0, b, ErrTruncated
 	}
